@@ -57,7 +57,13 @@ fn main() {
         }
         "c06" => c06::run(&args),
         "c07" => c07::run(&args),
-        "c05" => c05::run(&args),
+        "c05" => {
+            if args.get("leg") == Some("server") {
+                c05::run_server(&args)
+            } else {
+                c05::run(&args)
+            }
+        }
         "c08" => c08::run(&args),
         "c09" => c09::run(&args),
         "c14" => c14::run(&args),
